@@ -104,6 +104,10 @@ func checkC10(c c10Case) (Outcome, error) {
 	default:
 		r := gen.NewReader(stream)
 		r.Plan = sc.Plan
+		r.EOFWithData = sc.Source == "eof-with-data"
+		if r.EOFWithData {
+			out.Classes = append(out.Classes, "source:eof-with-data")
+		}
 		v, e = fn(r)
 	}
 	out.NonTrivial = vRef || namedItem(eRef) != 0
